@@ -106,7 +106,7 @@ Definition scaled_vertex_map (c : tcase) : uvmap :=
   let B := border_data c in
   let d := inject_Z (k_D c) in
   vertex_writes (o_free c) (o_bnd c) (map inject_Z (k_NU c)) (map inject_Z (k_NV c))
-                (map (fun b => d * fst b) B) (map (fun b => d * snd b) B).
+                (map (Qmult d) (map fst B)) (map (Qmult d) (map snd B)).
 
 Definition tabulate (w : uvmap) (n : Z) : list (Q * Q) := map (read0 w) (zrange n).
 Definition all_close (model obs : list (Q * Q)) : bool :=
@@ -135,8 +135,7 @@ Definition check_ok (c : tcase) : bool :=
   let exactC := tabulate (exact_corner_map c) (3 * nf)%Z in
   let posE := fun v => znth exactV v zero2 in
   let posI := fun v => znth (o_uvV c) v zero2 in
-  let scaledV := tabulate (scaled_vertex_map c) (c_nv c) in
-  let posS := fun v => znth scaledV v zero2 in
+  let posS := read0 (scaled_vertex_map c) in
   is_partition (c_nv c) free bnd && border_ok c &&
   (length B =? length bnd)%nat &&
   match c_mode c with MCircle => circle_ok c | _ => true end &&
